@@ -154,6 +154,9 @@ type EqOpts struct {
 	IgnoreHolder bool // do not compare holder bytes
 	// HolderNilEq: nil and empty holder are the same (always true: only bytes are compared)
 	NilEmptySame bool // nil and empty container/binary compare equal
+	// NilStructFresh: a nil struct pointer compares equal to a decoder-created struct
+	// without transmitted fields (what a nil non-optional struct becomes after one trip)
+	NilStructFresh bool
 }
 
 // EqualField compares two field values under the field's spec.
@@ -232,9 +235,15 @@ func EqualType(t *TypeSpec, a, b Val, o EqOpts, path string) *Mismatch {
 	case KStruct:
 		if t.Ptr {
 			if a.Nil != b.Nil {
-				return &Mismatch{path, nilstr(a.Nil) + " struct", nilstr(b.Nil) + " struct"}
-			}
-			if a.Nil {
+				if !o.NilStructFresh {
+					return &Mismatch{path, nilstr(a.Nil) + " struct", nilstr(b.Nil) + " struct"}
+				}
+				if a.Nil {
+					a = Val{St: FreshStruct(t.SS())}
+				} else {
+					b = Val{St: FreshStruct(t.SS())}
+				}
+			} else if a.Nil {
 				return nil
 			}
 		}
@@ -327,8 +336,11 @@ func canonVal(sb *strings.Builder, t *TypeSpec, v Val, o EqOpts) {
 		sb.WriteString("}")
 	case KStruct:
 		if t.Ptr && v.Nil {
-			sb.WriteString("Snil")
-			return
+			if !o.NilStructFresh {
+				sb.WriteString("Snil")
+				return
+			}
+			v = Val{St: FreshStruct(t.SS())}
 		}
 		s := t.SS()
 		sb.WriteString("(")
